@@ -451,7 +451,7 @@ func wnGen(prop string) func(rng *rand.Rand, tier string) *gosim.Plan {
 			ncli = 1 + rng.Intn(3)
 		}
 		nphase := 2 + rng.Intn(3)
-		p.Params["gc_pause_ms"] = gosim.Pick(rng, 0, 0, 1, 20)
+		p.Params["gc_pause_ms"] = gosim.Pick(rng, 0, 1, 20, 200)
 		if hot && rng.Intn(2) == 0 {
 			// scripted family history: make all files known (uploaded, some
 			// downloaded), then delete them one after the other in a random order;
@@ -472,11 +472,27 @@ func wnGen(prop string) func(rng *rand.Rand, tier string) *gosim.Plan {
 		}
 		for ph := 0; ph < nphase; ph++ {
 			if (prop == "C12" || prop == "C13" || prop == "C16") && ph > 0 && rng.Intn(3) == 0 {
-				// race phase: one client collects while another works on files the
-				// collector may be evicting (reads of their chunks, pins, unpins, re-downloads)
-				p.Ops = append(p.Ops, gosim.Op{K: "gc", A: []int64{0}})
+				// race phase: one client collects (explicitly, or by downloading one
+				// more file so that the worker starts) while another works on files
+				// the collector may be evicting - mostly the one cached first, which
+				// is the first candidate (reads of its chunks, pins, unpins, re-downloads)
+				if rng.Intn(2) == 0 {
+					p.Ops = append(p.Ops, gosim.Op{K: "gc", A: []int64{0}})
+				} else {
+					p.Ops = append(p.Ops, gosim.Op{K: "cache", A: []int64{0, int64(rng.Intn(nfiles))}})
+				}
+				oldest := int64(-1)
+				for _, o := range p.Ops {
+					if o.K == "cache" {
+						oldest = o.Arg(1)
+						break
+					}
+				}
 				for i, n := 0, 1+rng.Intn(3); i < n; i++ {
 					f := int64(rng.Intn(nfiles))
+					if oldest >= 0 && rng.Intn(3) > 0 {
+						f = oldest
+					}
 					switch rng.Intn(5) {
 					case 0:
 						p.Ops = append(p.Ops, gosim.Op{K: "get", A: []int64{1, f, int64(rng.Intn(8))}})
